@@ -281,5 +281,92 @@ impl<R: Host> ResolverFut<R> {
 //@end
 }
 
+
+// ===================================================================== ResolverService::call: resolution precedence (C19)
+#[verifier::external_body]
+pub struct Str { _p: () }
+#[verifier::external_body]
+pub struct AddrParseError { _p: () }
+/// the request's host is an IP literal (std's FromStr for IpAddr): an uninterpreted fact about the host string
+impl Str {
+    pub uninterp spec fn ip_literal(&self) -> Option<IpAddr>;
+    #[verifier::external_body]
+    pub fn parse(&self) -> (r: Result<IpAddr, AddrParseError>)
+        ensures r is Ok <==> self.ip_literal() is Some, r matches Ok(ip) ==> self.ip_literal() == Some(ip),
+    { unimplemented!() }
+}
+impl SocketAddr {
+    pub uninterp spec fn ip(&self) -> IpAddr;
+    pub uninterp spec fn port(&self) -> u16;
+    #[verifier::external_body]
+    pub fn new(ip: IpAddr, port: u16) -> (r: SocketAddr) ensures r.ip() == ip, r.port() == port { unimplemented!() }
+}
+pub trait HostName: Host {
+    spec fn spec_hostname(&self) -> Str;
+    fn hostname(&self) -> (r: &Str) ensures *r == self.spec_hostname();
+}
+/// the `dyn Resolve` of a custom resolver, and the opaque future an async block evaluates to (rule R11b)
+#[verifier::external_body]
+pub struct DynResolve { _p: () }
+#[verifier::external_body]
+#[verifier::reject_recursive_types(T)]
+pub struct Rc<T> { _p: core::marker::PhantomData<T> }
+impl<T> Rc<T> { #[verifier::external_body] pub fn clone(r: &Rc<T>) -> (o: Rc<T>) { unimplemented!() } }
+#[verifier::external_body]
+pub struct AsyncBlock { _p: () }
+#[verifier::external_body]
+pub fn vasync_block() -> (r: AsyncBlock) { unimplemented!() }
+impl Box<AsyncBlock> {
+    #[verifier::external_body]
+    pub fn pin<R: Host>(b: AsyncBlock) -> (r: LocalBoxFuture<'static, Result<ConnectInfo<R>, ConnectError>>) { unimplemented!() }
+}
+pub enum ResolverKind { Default, Custom(Rc<DynResolve>) }
+//@check_struct file=actix-tls/src/connect/resolver.rs name=ResolverService fields=kind
+pub struct ResolverService { pub kind: ResolverKind }
+
+impl<R: HostName> ConnectInfo<R> {
+    #[verifier::external_body]
+    pub fn hostname(&self) -> (r: &Str) ensures *r == self.request.spec_hostname() { unimplemented!() }
+
+/// info.rs `set_addr(mut self, addr: impl Into<Option<SocketAddr>>)` (a two-line builder method with a generic
+    /// `Into` argument: a TRUSTED helper, not extracted)
+    #[verifier::external_body]
+    pub fn set_addr(self, addr: Option<SocketAddr>) -> (r: Self)
+        ensures r.addr == (match addr { Some(a) => ConnectAddrs::One(a), None => ConnectAddrs::None }),
+                r.request == self.request && r.port == self.port && r.local_addr == self.local_addr,
+    { unimplemented!() }
+}
+
+impl vstd::std_specs::convert::FromSpecImpl<Option<SocketAddr>> for ConnectAddrs {
+    open spec fn obeys_from_spec() -> bool { false }
+    uninterp spec fn from_spec(a: Option<SocketAddr>) -> ConnectAddrs;
+}
+impl From<Option<SocketAddr>> for ConnectAddrs {
+//@extract file=actix-tls/src/connect/connect_addrs.rs item="impl From<Option<SocketAddr>> for ConnectAddrs / fn from" ret=r props=C19 name=connect_addrs::from_option
+//@spec
+    ensures r == (match addr { Some(a) => ConnectAddrs::One(a), None => ConnectAddrs::None }),
+//@end
+}
+
+impl ResolverService {
+    /// resolver.rs `default_lookup` (spawn_blocking of the OS resolver): NOT verified
+    #[verifier::external_body]
+    pub fn default_lookup<R: Host>(req: &ConnectInfo<R>) -> (r: JoinHandle<io::Result<IntoIter<SocketAddr>>>) { unimplemented!() }
+
+//@extract file=actix-tls/src/connect/resolver.rs item="impl<R: Host> Service<ConnectInfo<R>> for ResolverService / fn call" ret=r props=C19 name=resolver::call sig_replace="fn call(&self, req: ConnectInfo<R>)=>fn call<R: HostName>(&self, req: ConnectInfo<R>)"
+//@spec
+    ensures
+        // a request that already carries addresses is never re-resolved: it is handed back untouched   [C19]
+        !(req.addr is None) ==> r == ResolverFut::Resolved(Some(req)),
+        // an IP-literal host is dialled directly, at the request's own port   [C19]
+        req.addr is None && req.request.spec_hostname().ip_literal() is Some ==> (r matches ResolverFut::Resolved(Some(c))
+            && (c.addr matches ConnectAddrs::One(a) && Some(a.ip()) == req.request.spec_hostname().ip_literal()
+                && a.port() == (match req.request.spec_port() { Some(p) => p, None => req.port }))
+            && c.request == req.request),
+        // any other host goes through the configured resolver   [C19]
+        req.addr is None && req.request.spec_hostname().ip_literal() is None ==> (self.kind is Default ==> r is LookUp) && (self.kind is Custom ==> r is LookupCustom),
+//@end
+}
+
 } // verus!
 fn main() {}
